@@ -84,7 +84,7 @@ func (c *Check) blockingInventory(rule string) {
 				has := false
 				var chans []string
 				for _, s := range x.States {
-					n := chanFieldName(s.Chan)
+					n := p.chanNameThroughParams(fn, s.Chan)
 					chans = append(chans, n)
 					if s.Send == nil && stopChannels[n] {
 						has = true
@@ -178,4 +178,41 @@ func (c *Check) dialSingleResult(rule string) {
 		}
 		c.require(ok, rule, "fsm.connect", "failed dial returns Idle", p.Pos(cn.Pos()), "when every dial result carries an error, connect() returns only Idle (or Disabled on close), or redials after the retry timer with a fresh dial")
 	}
+}
+
+// chanNameThroughParams names a channel; a channel parameter of a helper the
+// rules do not know is named after the argument its callers pass.
+func (p *Prog) chanNameThroughParams(fn *ssa.Function, v ssa.Value) string {
+	prm, ok := v.(*ssa.Parameter)
+	if !ok || knownFuncs[p.Name(fn)] {
+		return chanFieldName(v)
+	}
+	idx := -1
+	for i, q := range fn.Params {
+		if q == prm {
+			idx = i
+		}
+	}
+	name := ""
+	for _, g := range p.FuncSeq {
+		allInstrs(g, func(in ssa.Instruction) {
+			ci, ok := in.(ssa.CallInstruction)
+			if !ok || p.staticLocalCallee(ci) != fn {
+				return
+			}
+			args := ci.Common().Args
+			if idx >= 0 && idx < len(args) {
+				n := p.chanNameThroughParams(g, args[idx])
+				if name == "" || name == n {
+					name = n
+				} else {
+					name = "?"
+				}
+			}
+		})
+	}
+	if name == "" {
+		return prm.Name()
+	}
+	return name
 }
